@@ -130,9 +130,34 @@ Definition ferr_z (e : ferr) : Z := match e with NotFound => -12 | NotFile => -1
 Definition bytes_ok (s : list Z) : bool := forallb (fun c => (0 <=? c) && (c <=? 255)) s.
 Definition NOFUEL : Z := -777006.
 
+(* a file of [size] generated bytes (byte i = (7 i + b) mod 251), built by binary iteration: sizes of whole blocks
+   (4096, 65536, 2^20, ...) and their neighbours *)
+Definition gen_bytes (size b : Z) : list Z :=
+  match size with
+  | Zpos p => snd (Pos.iter (fun st : Z * list Z => let '(j, acc) := st in (j - 1, ((7 * (j - 1) + b) mod 251) :: acc)) (size, []) p)
+  | _ => []
+  end.
+
+(* open "f<n>/child" where f<n> is a regular file: the path names nothing (ENOTDIR): NotFound for the read modes; a write
+   mode passes File's checks, fopen fails and the File is simply not open *)
+Definition open_through_file (d : disk) (n : Z) (md : fmode) : option (list Z) :=
+  match dfind d n with
+  | Some (EFile _) => Some [if is_write_mode md then -1 else ferr_z NotFound]
+  | _ => None
+  end.
+
 Definition file_step (st : disk * option stream) (l : list Z) : (disk * option stream) * list Z :=
   let '(d, os) := st in
   match l, os with
+  | [34; n; size; b], None =>
+      if (0 <=? size) && (size <=? 4194304) && (0 <=? b) && (b <? 251)
+         && negb (match dfind d n with Some EDir => true | _ => false end)
+      then ((dset d n (EFile (gen_bytes size b)), os), [1]) else (st, [PRE])
+  | [35; n; m], None =>
+      match mode_of m with
+      | Some md => match open_through_file d n md with Some out => (st, out) | None => (st, [PRE]) end
+      | None => (st, [PRE])
+      end
   | [30; n], _ => match dfind d n with None => ((dset d n EDir, os), [1]) | Some _ => (st, [PRE]) end
   | 31 :: n :: bytes, None =>
       if bytes_ok bytes && negb (match dfind d n with Some EDir => true | _ => false end)
@@ -188,6 +213,7 @@ Definition file_step2 (st : disk * option stream * option stream * bool) (l : li
       let conflict := match l, other with
                       | 1 :: n :: _, Some o => s_name o =? n
                       | 31 :: n :: _, Some o => s_name o =? n
+                      | 34 :: n :: _, Some o => s_name o =? n
                       | _, _ => false
                       end in
       if conflict then (st, [PRE]) else
